@@ -121,6 +121,11 @@ def case_st(draw):
     return (stuffing, abort, noise, frames, gaps, closing, extra, draw(G.cuts_st()))
 
 
+from vlib import ctorprobe  # noqa: E402
+
+_CTOR_VARIANTS = ctorprobe.variants(hdlc.HdlcFrameReader, {"use_octet_stuffing", "use_abort_sequence"})  # empty unless the constructor grew parameters
+
+
 def interleaved_oracle(case) -> Info:
     """Two (or three) readers alive in the same process, each fed its own clean stream, chunks alternating:
     every reader must still deliver exactly its own frames (no state shared between instances)."""
@@ -132,6 +137,8 @@ def interleaved_oracle(case) -> Info:
         readers.append(hdlc.HdlcFrameReader(use_octet_stuffing=stuffing, use_abort_sequence=abort))
         chunk_lists.append(G.split(stream, tuple(cuts)))
         sent.append(frames)
+        if _CTOR_VARIANTS and len(readers) == 1:  # a bystander built with constructor arguments this harness does not know: must not matter to anyone
+            ctorprobe.build_bystander(hdlc.HdlcFrameReader, _CTOR_VARIANTS[len(stream) % len(_CTOR_VARIANTS)], stuffing, abort)
     got = [[] for _ in readers]
     for k in range(max(len(c) for c in chunk_lists)):
         for i, r in enumerate(readers):
